@@ -36,6 +36,7 @@ Definition cell_class (c : cellid) : option nat :=
   | CNode Live _ => Some 14
   | CRoot Live => Some 15
   | CTunnelBuf => Some 16
+  | CReqFields => Some 17
   end.
 
 Definition sync_code (s : sync) : nat := match s with Plain => 0 | Atomic => 1 | Locked l => 2 + l end.
